@@ -411,6 +411,30 @@ def term_definite_difference(a, b, depth=0):
         if (va is None or isinstance(va, (str, bool))) and (vb is None or isinstance(vb, (str, bool))) and va != vb:
             return f"constant {va!r} vs {vb!r}"
         return None
+    # the element a loop is currently visiting against a FIXED element of the same container (frame n vs frame 0)
+    def _loop_element(x_):
+        """(container, True) when x_ is the element variable of `for x in C` / `for k, x in enumerate(C)`"""
+        from .vg import LOOP_ITERS
+        if x_[0] == "loopvar" and len(x_) > 3:
+            it_ = LOOP_ITERS.get(x_[3])
+            if it_ is not None and not (it_[0] == "call" and it_[1] in ("builtins.enumerate", "builtins.zip")):
+                return it_
+        if x_[0] == "elem" and x_[2] == 1 and x_[1][0] == "loopvar" and len(x_[1]) > 3:
+            it_ = LOOP_ITERS.get(x_[1][3])
+            if it_ is not None and it_[0] == "call" and it_[1] == "builtins.enumerate" and it_[2]:
+                return it_[2][0]
+        return None
+    def _noself(t_):
+        """instance attributes named after the constructor argument they hold: self.snapshots ~ snapshots"""
+        if isinstance(t_, tuple) and t_ and t_[0] == "attr" and t_[1] == ("sym", "self"):
+            return ("sym", t_[2])
+        if isinstance(t_, tuple) and t_ and t_[0] == "attr":
+            return ("attr", _noself(t_[1]), t_[2])
+        return t_
+    for p_, q_ in ((a, b), (b, a)):
+        c_ = _loop_element(p_)
+        if c_ is not None and q_[0] == "sub" and _noself(q_[1]) == _noself(c_) and q_[2][0] == "const" and isinstance(q_[2][1], int):
+            return f"the element visited by the loop vs the fixed element [{q_[2][1]}] of the same container"
     idx_like = ("const", "loopvar", "bin", "un", "elem", "sub", "sym")
     if ka in idx_like and kb in idx_like and (ka != kb or ka in ("bin", "loopvar", "elem", "sym")) and \
             not (ka == "const" and not isinstance(a[1], (int, float))) and not (kb == "const" and not isinstance(b[1], (int, float))):
@@ -450,6 +474,12 @@ def term_definite_difference(a, b, depth=0):
                 # arithmetic nodes with the same operator may still differ in exactly one operand (handled structurally below)
                 raise _NotIndex()
             only_a, only_b = used[0] - used[1], used[1] - used[0]
+            # a component of a structured loop target (for n, (a, b) in enumerate(zip(..))) against the target itself: the two
+            # are not comparable quantities, so nothing definite follows
+            def _projection_of(x_, y_):
+                return isinstance(x_, tuple) and x_ and x_[0] in ("elem", "sub") and (x_[1] == y_ or _projection_of(x_[1], y_))
+            if any(_projection_of(x_, y_) or _projection_of(y_, x_) for x_ in only_a for y_ in only_b):
+                return None
             if (any(_is_enum_elem(x_) for x_ in only_a) and any(_is_moving_sub(x_) for x_ in only_b)) or \
                     (any(_is_enum_elem(x_) for x_ in only_b) and any(_is_moving_sub(x_) for x_ in only_a)):
                 return None
@@ -458,8 +488,15 @@ def term_definite_difference(a, b, depth=0):
             # data reads (subscripts / attributes) are free quantities only as long as both sides read the SAME ones, or one
             # side reads none at all (a pure expression in loop variables, parameters and numbers cannot track the data);
             # two different reads may well hold the same value
-            da = {x_ for x_ in used[0] if x_[0] in ("sub", "attr")}
-            db = {x_ for x_ in used[1] if x_[0] in ("sub", "attr")}
+            def _is_data(x_):
+                if x_[0] in ("sub", "attr"):
+                    return True
+                b_ = x_
+                while b_[0] == "elem":
+                    b_ = b_[1]
+                return b_[0] == "loopvar" and len(b_) > 3      # iterates over the elements of a container
+            da = {x_ for x_ in used[0] if _is_data(x_)}
+            db = {x_ for x_ in used[1] if _is_data(x_)}
             if da != db and da and db:
                 oa, ob = sorted(da - db, key=repr), sorted(db - da, key=repr)
                 if len(oa) != len(ob) or depth > 6:
